@@ -4,6 +4,7 @@ import (
 	"encoding/json"
 	"fmt"
 	"os"
+	"os/exec"
 	"path/filepath"
 	"runtime"
 	"sort"
@@ -158,7 +159,99 @@ func RunKillMatrix(ids []string, repo, verif string, ff *FindingsFile) ([]Mutant
 		dropCaches(p)
 		runtime.GC()
 	}
+	// seeded changes kept under <verif>/seeded/<id>/ (patch.diff + meta.json): each must be
+	// reported by the check of the property it was written against
+	seeds, _ := filepath.Glob(filepath.Join(verif, "seeded", "*", "meta.json"))
+	sort.Strings(seeds)
+	for _, mf := range seeds {
+		var meta struct {
+			ID       string `json:"id"`
+			Property string `json:"property"`
+		}
+		b, err := os.ReadFile(mf)
+		if err != nil || json.Unmarshal(b, &meta) != nil || !want[meta.Property] {
+			continue
+		}
+		id := "seed:" + meta.ID
+		ov, err := patchOverlay(repo, filepath.Join(filepath.Dir(mf), "patch.diff"))
+		if err != nil {
+			results = append(results, MutantResult{ID: id, Kind: "S", Prop: meta.Property, Outcome: "stale", Detail: shorten(err.Error(), 200)})
+			continue
+		}
+		p, err := Load(Config{Repo: repo, Overlay: ov})
+		if err != nil {
+			results = append(results, MutantResult{ID: id, Kind: "S", Prop: meta.Property, Outcome: "invalid", Detail: shorten(err.Error(), 200)})
+			continue
+		}
+		pd := Lookup(meta.Property)
+		fails := failingKeys(RunOn(pd, p, "quick"), ff)
+		var fresh []string
+		for k, d := range fails {
+			if _, was := baseline[meta.Property][k]; !was {
+				fresh = append(fresh, k+": "+shorten(d, 140))
+			}
+		}
+		sort.Strings(fresh)
+		r := MutantResult{ID: id, Kind: "S", Prop: meta.Property}
+		if len(fresh) > 0 {
+			r.Outcome, r.Detail = "killed", fresh[0]
+		} else {
+			r.Outcome = "SURVIVED"
+		}
+		results = append(results, r)
+		dropCaches(p)
+		runtime.GC()
+	}
 	return results, nil
+}
+
+// patchOverlay applies a unified diff to copies of the files it touches (in a scratch
+// directory) and returns the patched contents keyed by their path inside repo.
+func patchOverlay(repo, patch string) (map[string][]byte, error) {
+	raw, err := os.ReadFile(patch)
+	if err != nil {
+		return nil, err
+	}
+	var files []string
+	for _, ln := range strings.Split(string(raw), "\n") {
+		if strings.HasPrefix(ln, "+++ b/") {
+			files = append(files, strings.TrimSpace(strings.TrimPrefix(ln, "+++ b/")))
+		}
+	}
+	if len(files) == 0 {
+		return nil, fmt.Errorf("no files in patch")
+	}
+	tmp, err := os.MkdirTemp("", "pgv-seed-")
+	if err != nil {
+		return nil, err
+	}
+	defer os.RemoveAll(tmp)
+	for _, f := range files {
+		src, err := os.ReadFile(filepath.Join(repo, f))
+		if err != nil {
+			continue // file created by the patch
+		}
+		if err := os.MkdirAll(filepath.Dir(filepath.Join(tmp, f)), 0o755); err != nil {
+			return nil, err
+		}
+		if err := os.WriteFile(filepath.Join(tmp, f), src, 0o644); err != nil {
+			return nil, err
+		}
+	}
+	cmd := exec.Command("patch", "-p1", "-s", "-N", "--no-backup-if-mismatch", "-i", patch)
+	cmd.Dir = tmp
+	if out, err := cmd.CombinedOutput(); err != nil {
+		return nil, fmt.Errorf("patch does not apply to the current tree: %s", strings.TrimSpace(string(out)))
+	}
+	ov := map[string][]byte{}
+	for _, f := range files {
+		b, err := os.ReadFile(filepath.Join(tmp, f))
+		if err != nil {
+			return nil, err
+		}
+		ov[filepath.Join(repo, f)] = b
+	}
+	return ov, nil
 }
 
 // Summarise condenses kill-matrix results for the evidence file.
